@@ -271,7 +271,9 @@ def model_term(case, out, rnd="fmt5 b64", restarts=True, tol=None):
 
 IMPORTS_SRC = "From PV Require Import C15.Model C15.SrcRun.\nLocal Open Scope Z_scope.\n"
 SOURCE_THEOREMS = ["c15_source_update_is_model", "c15_source_run_is_model", "c15_source_es_is_model",
-                   "c15_source_rlr_is_model", "c15_source_control_is_model", "c15_source_continue_training_is_model"]
+                   "c15_source_rlr_is_model", "c15_source_control_is_model", "c15_source_head_is_model",
+                   "c15_source_continue_training_is_model", "c15_source_get_last_epoch_is_model",
+                   "c15_source_trace_follows_rules"]
 
 
 def src_term(case, out):
